@@ -66,3 +66,115 @@ Print Assumptions C03_wf_full_b_spec.
 Theorem C03_example_wf : WF ex_snap.
 Proof. exact ex_snap_WF. Qed.
 Print Assumptions C03_example_wf.
+
+(** ** ALL histories (HIST): the manager state machine of Mgr/History.v - constants,
+    variables, not / binary / ite, the three quantifiers and their fused forms,
+    restrict, substitution objects and substitute, clone, drop, gc, add_vars,
+    set_var_order - from the empty manager, for every operand order [gt] and every
+    cache that only serves what was added ([lossy]) *)
+From Coq Require Import FMapPositive.
+From OxiVerif Require Import DD.Sem DD.Apply DD.ApplyProofs DD.ApplyEvalProofs DD.Quant DD.QuantLemmas
+  Mgr.History Mgr.HistoryProofs Mgr.HistoryThms Mgr.HistoryExamples.
+
+(* what "reachable" means: the state after a history of well-formed requests from the empty manager *)
+Theorem C03_hist_reach_unfold :
+  forall (gt : ref -> ref -> bool) (C : Type) (cget : C -> N -> list ref -> option ref)
+         (cadd : C -> N -> list ref -> ref -> C) (cempty : C) (n : nat) (st : hstate C),
+  hreach gt C cget cadd cempty n st <->
+  exists ops, hops_pre gt C cget cadd cempty (hinit C cempty n) ops /\
+              hrun gt C cget cadd cempty (hinit C cempty n) ops = Some st.
+Proof. exact (fun gt C cget cadd cempty n st => iff_refl _). Qed.
+Print Assumptions C03_hist_reach_unfold.
+
+(* the invariant that holds whenever no operation is in progress *)
+Theorem C03_hist_inv_unfold :
+  forall (C : Type) (cget : C -> N -> list ref -> option ref) (st : hstate C),
+  HInv C cget st <->
+  (BddOK (h_s C st) /\
+   QCacheOK cget (hreg_fn (h_reg C st)) (h_s C st) (h_c C st) /\
+   (forall id pairs, In (id, pairs) (h_reg C st) ->
+      NoDup (map fst pairs) /\
+      forall v r, In (v, r) pairs -> v < nlevels (h_s C st) /\ ref_ok (h_s C st) r) /\
+   (forall id pairs, In (id, pairs) (h_reg C st) -> N.lt id (h_next C st))).
+Proof. exact hinv_unfold. Qed.
+Print Assumptions C03_hist_inv_unfold.
+
+Theorem C03_hist_init_inv :
+  forall (C : Type) (cget : C -> N -> list ref -> option ref) (cempty : C),
+  (forall k a, cget cempty k a = None) -> forall n, HInv C cget (hinit C cempty n).
+Proof. exact hinit_inv. Qed.
+Print Assumptions C03_hist_init_inv.
+
+(* one call of any kind: completes, re-establishes the invariant, frame, result *)
+Theorem C03_hist_step :
+  forall (gt : ref -> ref -> bool) (C : Type) (cget : C -> N -> list ref -> option ref)
+         (cadd : C -> N -> list ref -> ref -> C), lossy cget cadd ->
+  forall cempty : C, (forall k a, cget cempty k a = None) ->
+  forall (st : hstate C) (o : hop), HInv C cget st -> hop_pre C st o ->
+  exists st', hstep gt C cget cadd cempty st o = Some st' /\
+              HInv C cget st' /\ hframe C st o st' /\ hpost C st o st'.
+Proof. exact hstep_ok. Qed.
+Print Assumptions C03_hist_step.
+
+(* whole histories *)
+Theorem C03_hist_run_ok :
+  forall (gt : ref -> ref -> bool) (C : Type) (cget : C -> N -> list ref -> option ref)
+         (cadd : C -> N -> list ref -> ref -> C), lossy cget cadd ->
+  forall cempty : C, (forall k a, cget cempty k a = None) ->
+  forall ops st, HInv C cget st -> hops_pre gt C cget cadd cempty st ops ->
+  exists st', hrun gt C cget cadd cempty st ops = Some st' /\ HInv C cget st'.
+Proof. exact hrun_ok. Qed.
+Print Assumptions C03_hist_run_ok.
+
+(* from any reachable state no well-formed request gets stuck, and the state reached is reachable *)
+Theorem C03_hist_never_stuck :
+  forall (gt : ref -> ref -> bool) (C : Type) (cget : C -> N -> list ref -> option ref)
+         (cadd : C -> N -> list ref -> ref -> C), lossy cget cadd ->
+  forall cempty : C, (forall k a, cget cempty k a = None) ->
+  forall n st o, hreach gt C cget cadd cempty n st -> hop_pre C st o ->
+  exists st', hstep gt C cget cadd cempty st o = Some st' /\
+              hreach gt C cget cadd cempty n st' /\ hframe C st o st' /\ hpost C st o st'.
+Proof. exact hist_progress. Qed.
+Print Assumptions C03_hist_never_stuck.
+
+(* the property: after ANY history the table passes the structural checker run on real snapshots *)
+Theorem C03_hist_wf :
+  forall (gt : ref -> ref -> bool) (C : Type) (cget : C -> N -> list ref -> option ref)
+         (cadd : C -> N -> list ref -> ref -> C), lossy cget cadd ->
+  forall cempty : C, (forall k a, cget cempty k a = None) ->
+  forall n st, hreach gt C cget cadd cempty n st ->
+  wf_b (h_s C st) = true /\ bdd_ok_b (h_s C st) = true.
+Proof. exact hist_wf. Qed.
+Print Assumptions C03_hist_wf.
+
+(* well-formedness of a request is decidable: the executable checker decides it *)
+Theorem C03_hist_pre_checker :
+  forall (C : Type) (st : hstate C) (o : hop), hop_pre_b C st o = true <-> hop_pre C st o.
+Proof. exact hop_pre_b_spec. Qed.
+Print Assumptions C03_hist_pre_checker.
+
+Theorem C03_hist_run_checked :
+  forall (gt : ref -> ref -> bool) (C : Type) (cget : C -> N -> list ref -> option ref)
+         (cadd : C -> N -> list ref -> ref -> C), lossy cget cadd ->
+  forall cempty : C, (forall k a, cget cempty k a = None) ->
+  forall n ops, hops_pre_b gt C cget cadd cempty (hinit C cempty n) ops = true ->
+  exists st, hrun gt C cget cadd cempty (hinit C cempty n) ops = Some st /\
+             hreach gt C cget cadd cempty n st.
+Proof. exact hrun_checked. Qed.
+Print Assumptions C03_hist_run_checked.
+
+(* non-vacuity: a history of 24 calls through all 15 kinds, accepted by the checker, computed *)
+Theorem C03_hist_example_cover :
+  forallb (fun t => existsb (fun o => Nat.eqb (hop_tag o) t) ex_ops) (seq 0 15) = true /\ length ex_ops = 24.
+Proof. exact ex_ops_cover. Qed.
+Print Assumptions C03_hist_example_cover.
+
+Theorem C03_hist_example_run :
+  hops_pre_b gtA acache ac_get ac_add nil (hinit acache nil 3) ex_ops = true /\
+  hrun gtA acache ac_get ac_add nil (hinit acache nil 3) ex_ops = Some ex_stA /\
+  PositiveMap.cardinal (s_nodes (h_s acache ex_stA)) = 15 /\
+  s_l2v (h_s acache ex_stA) = (2 :: 0 :: 1 :: 3 :: nil) /\
+  wf_b (h_s acache ex_stA) = true.
+Proof. exact (conj ex_preA (conj ex_runA (conj (proj1 ex_stA_shape)
+         (conj (proj1 (proj2 ex_stA_shape)) (proj1 ex_wfA))))). Qed.
+Print Assumptions C03_hist_example_run.
